@@ -130,6 +130,8 @@ func exec(op string) (res string) {
 		return astFacts()
 	case "sess", "sessx":
 		return execSess(op)
+	case "hist":
+		return execHist(op)
 	}
 	return "bad-op"
 }
@@ -307,5 +309,8 @@ func main() {
 		emit(c, pages, cls)
 	}
 	extra := sessionTier(r, out, tier)
+	for k, v := range histTier(r, out, tier) {
+		extra[k] = v
+	}
 	out.Close(extra)
 }
